@@ -353,4 +353,22 @@ var plans = map[string]Plan{
 			{Name: "c19-helpers", Run: "^TestC19Helpers$", Rapid: true, Shards: [2]int{6, 12}, Checks: [2]int{2000, 15000}, Lab: &LabSpec{Kind: "service", Programs: [2]int{16, 100}}},
 		},
 	},
+	"C18": {
+		Level: "exploration",
+		Rule: "cases are (operation list, schedule parameters): K in 2..64 operations drawn from 13 kinds (Encode, Decode+force, stream write / read / skip under drawn segmentations, envelope encode / decode, ReadRequest, DecodeRequest, and ToWire / Encode / FromWire / Decode of the generated plugin-API types) on pairwise distinct values, run concurrently after a sequential baseline, under GOMAXPROCS in {1,2,16}, with drawn yields inside the codec's I/O callbacks, forced GCs (emptying the sync.Pools) and 1..8 repetitions; a sequential state machine over pool reuse (decode-keep / force / close / evaluate / drop / GC); K concurrent Sends with distinct payloads on one frame client against a delayed, segmented echo server (synchronous and buffered pipes); frame reader / writer under segmentation and sharing; MultiServiceGenerator / MultiHandle / concurrent.Range fan-out over 1..8 in-process plugins. The whole binary runs under the race detector. " +
+			"Oracle: every concurrent result equals its sequential baseline (which equals the reference codec); every still-open lazy value equals its model after every step; each Send receives the response to its own request; merged plugin output == union, conflicts and failures reported; no data race. " +
+			"Non-trivial: K >= 4 operations of >= 2 kinds (codec), >= 4 steps of >= 2 kinds (pool), K >= 4 senders, >= 2 frames, >= 2 generators. Distinct: SHA-256 of the case JSON.",
+		Assumptions: []string{
+			"the harness does not own the Go scheduler: interleavings are sampled; the race detector reports unsynchronised access pairs without needing the bad interleaving",
+			"a failing shard without a recorded case (race report, fatal 'concurrent map writes') is a violation with the shard log as artefact",
+			"sync.Pool under -race drops puts at random, so pool-reuse failures are likely, not certain, per case",
+		},
+		Units: []Unit{
+			{Name: "codec", Pkg: "./checks/c18", Run: "^TestConcurrentCodec$", Rapid: true, Race: true, Shards: [2]int{6, 16}, Checks: [2]int{400, 5000}},
+			{Name: "pool", Pkg: "./checks/c18", Run: "^TestPoolStateMachine$", Rapid: true, Race: true, Shards: [2]int{4, 16}, Checks: [2]int{400, 5000}},
+			{Name: "frame-client", Pkg: "./checks/c18", Run: "^TestFrameClient$", Rapid: true, Race: true, Shards: [2]int{3, 8}, Checks: [2]int{300, 3000}},
+			{Name: "frame-stream", Pkg: "./checks/c18", Run: "^TestFrameStream$", Rapid: true, Race: true, Shards: [2]int{1, 4}, Checks: [2]int{400, 3000}},
+			{Name: "multi", Pkg: "./checks/c18", Run: "^TestMultiGenerator$", Rapid: true, Race: true, Shards: [2]int{2, 8}, Checks: [2]int{400, 3000}},
+		},
+	},
 }
